@@ -282,4 +282,9 @@ def templates(tier="quick"):
         T += _mk("phony_alias_exists_as_" + what, [v], tags=["phony"], depth=d, touch=True, js=(1, 2), max_fault_stmts=1,
                  dirs=["hdrs"] if what == "dir" else (), files={} if what == "dir" else {"hdrs": "a file named like the alias\n"})
 
+    # T31 an output whose name contains a TAB (the lexer accepts it; the build log separates its fields with TABs), next
+    # to an output named like the part before the TAB
+    v = Variant("v0", [Stmt("a\tb", ex=["s"]), Stmt("a", ex=["t"]), Stmt("top", ex=["a\tb", "a"])])
+    T += _mk("tab_in_output_name", [v], tags=["names"], depth=d, js=(1, 2), max_fault_stmts=1)
+
     return T
